@@ -157,6 +157,9 @@ impl World {
             UtxoSpec { owner: Owner::Native(2), base: false, coin: 3_700_000, assets: vec![] },
             // 18: more than 2^63 units of one asset (to be burnt by Mint(6))
             UtxoSpec { owner: Owner::Key(1), base: false, coin: 3_100_000, assets: vec![(0, 1, (1u64 << 63) + 10)] },
+            // 19: a key-owned UTxO at an enterprise address that CARRIES a reference script (2000 bytes of
+            // Plutus V2): spending it is charged the reference-script fee like referencing it
+            UtxoSpec { owner: Owner::Key(1), base: false, coin: 8_000_000, assets: vec![] },
         ];
         for (i, s) in specs.into_iter().enumerate() {
             let addr = match &s.owner {
@@ -171,7 +174,10 @@ impl World {
                 Owner::Native(n) => EnterpriseAddress::new(1, &Credential::from_scripthash(&w.native[*n].hash())).to_address(),
                 Owner::Plutus(p) => EnterpriseAddress::new(1, &Credential::from_scripthash(&w.plutus[*p].hash())).to_address(),
             };
-            let out = TransactionOutput::new(&addr, &mk_value(&w, s.coin, &s.assets));
+            let mut out = TransactionOutput::new(&addr, &mk_value(&w, s.coin, &s.assets));
+            if i == SPENT_REF_SCRIPT_UTXO {
+                out.set_script_ref(&ScriptRef::new_plutus_script(&PlutusScript::new_v2(vec![0x5c; SPENT_REF_SCRIPT_SIZE])));
+            }
             let u = TransactionUnspentOutput::new(&op_outpoint(i), &out);
             w.utxos.push((s, u));
         }
@@ -200,7 +206,11 @@ impl World {
         let old = u.output();
         let mut v = old.amount();
         v.set_coin(&bn(coin));
-        *u = TransactionUnspentOutput::new(&u.input(), &TransactionOutput::new(&old.address(), &v));
+        let mut o = TransactionOutput::new(&old.address(), &v);
+        if let Some(r) = old.script_ref() {
+            o.set_script_ref(&r);
+        }
+        *u = TransactionUnspentOutput::new(&u.input(), &o);
     }
     pub fn lookup(&self, op: &(Vec<u8>, u64)) -> Option<usize> {
         (0..self.utxos.len()).find(|i| &op_outpoint_key(*i) == op)
@@ -332,6 +342,8 @@ impl St {
 pub const WD_AMOUNT: [u64; 4] = [5_000_000, 1_000_000, 0x1_0000_0000, 1_500_000];
 pub const REF_SCRIPT_OUTPOINT: usize = 20;
 pub const REF_SCRIPT_SIZE: usize = 600;
+pub const SPENT_REF_SCRIPT_UTXO: usize = 19;
+pub const SPENT_REF_SCRIPT_SIZE: usize = 2000;
 
 fn redeemer_for(tag: RedeemerTag, marker: u64) -> Redeemer {
     // the data names the item the redeemer is attached to (C10); index is a placeholder
@@ -762,7 +774,9 @@ pub fn setup(w: &World, st: &St, params: &Params) -> Result<TransactionBuilder, 
     let mut tb = TransactionBuilder::new(&params.config());
     // legacy mode: every component that the older entry points can express goes through them
     let legacy = params.legacy_api;
-    let simple_inputs = st.m.inputs.iter().all(|(i, v)| *v == 0 || matches!(w.utxos[*i].0.owner, Owner::Plutus(_)));
+    // the per-item entry points take (address / key, outpoint, value): they cannot be told that a
+    // UTxO carries a reference script, so a UTxO that does goes through the UTxO-level entry point
+    let simple_inputs = st.m.inputs.iter().all(|(i, v)| (*v == 0 || matches!(w.utxos[*i].0.owner, Owner::Plutus(_))) && *i != SPENT_REF_SCRIPT_UTXO);
     // churn: everything that has a remove_* counterpart is first set to something else and removed
     // again; the builder must then behave as if it had never been set
     if params.churn {
@@ -1080,6 +1094,8 @@ pub fn ref_script_total(t: &PTx, st: &St) -> u64 {
             total += 40;
         } else if *op == op_outpoint_key(23) {
             total += 30_000;
+        } else if *op == op_outpoint_key(SPENT_REF_SCRIPT_UTXO) {
+            total += SPENT_REF_SCRIPT_SIZE as u64;
         } else if *op == op_outpoint_key(1) && st.m.ref_inputs.contains(&3) {
             total += 20_000;
         }
@@ -1104,7 +1120,7 @@ pub fn ops_for(prop: &str) -> Vec<Op> {
             Op::Fee(0), Op::Fee(1), Op::Fee(2), Op::Fee(3), Op::Coll(1), Op::Meta, Op::RefIn(1), Op::RefIn(3),
             Op::WdAgain(0), Op::WdAgain(2), Op::Wd(4), Op::InAgain(0), Op::In(7, 0), Op::In(7, 1), Op::In(8, 0), Op::In(17, 0),
             Op::Ttl, Op::Treasury, Op::MintAndOutput, Op::MetaJson, Op::ExtraDatum(1), Op::ExtraDatum(0), Op::ExtraDatum(4), Op::MetaEmpty(0), Op::MetaEmpty(1),
-            Op::In(18, 0), Op::Mint(6), Op::Mint(5),
+            Op::In(18, 0), Op::Mint(6), Op::Mint(5), Op::In(19, 0),
         ],
         // C16 looks at ordering and repetition in the built transaction: items that bring scripts,
         // datums, reference inputs, signers - one or two per source
@@ -1138,7 +1154,7 @@ pub fn core_ops_for(prop: &str) -> Vec<Op> {
             Op::Out(0), Op::Out(1), Op::Out(2), Op::Out(3), Op::Out(4),
             Op::Cert(0), Op::Cert(3), Op::Cert(7), Op::Cert(13), Op::Cert(20),
             Op::Wd(0), Op::Wd(2), Op::WdAgain(0), Op::Wd(4), Op::Mint(0), Op::Mint(1), Op::Mint(3), Op::Proposal(0), Op::Donate,
-            Op::Fee(0), Op::Fee(2), Op::Coll(1), Op::RefIn(3), Op::MintAndOutput, Op::ExtraDatum(1), Op::ExtraDatum(4), Op::In(18, 0), Op::Mint(6),
+            Op::Fee(0), Op::Fee(2), Op::Coll(1), Op::RefIn(3), Op::MintAndOutput, Op::ExtraDatum(1), Op::ExtraDatum(4), Op::In(18, 0), Op::Mint(6), Op::In(19, 0),
         ],
         "C18" => vec![
             Op::In(0, 0), Op::In(2, 0), Op::In(5, 0), Op::In(13, 0), Op::In(12, 0), Op::In(6, 0), Op::In(6, 1), Op::In(10, 2), Op::In(16, 3), Op::In(7, 0), Op::In(7, 1), Op::In(7, 4), Op::In(11, 0), Op::In(8, 2), Op::In(14, 0), Op::In(17, 0),
